@@ -6,7 +6,7 @@
 SHA_LOOPS = [
     {"function": "_crypt_gensalt_sha_rn", "anchor": "ceiling *= 10",
      "invariant": "count <= 999999999 && ((ceiling == 10 && output_len == 17)" +
-                  "".join(" || (ceiling == %d && output_len == %d && %d < count)" % (10**(k+1), 17+k, 10**k) for k in range(1, 9)) + ")",
+                  "".join(" || (ceiling == %d && output_len == %d && %d <= count)" % (10**(k+1), 17+k, 10**k) for k in range(1, 9)) + ")",
      "decreases": "10000000000 - ceiling",
      "assigns": "ceiling, output_len"},
 ]
@@ -19,6 +19,6 @@ JOBS = [
      "verif_src": ["models/strings.c"],
      "late_src": ["models/snprintf.c"],
      "loops": SHA_LOOPS,
-     "unwind": 21, "unwind_by_func": {"^harness$": 100, "^_crypt_gensalt_sha_rn$": 6}, "mem_gb": 3, "timeout": 180,
+     "unwind": 21, "unwind_by_func": {"^_crypt_gensalt_sha_rn$": 6}, "mem_gb": 3, "timeout": 180,
      "assumptions": ["snprintf model (models/snprintf.c)"]},
 ]
